@@ -3,6 +3,7 @@ package props
 import (
 	"errors"
 	"fmt"
+	"html/template"
 	"reflect"
 	"sort"
 	"strings"
@@ -489,6 +490,74 @@ func c12Call(b *core.B, s c12Sig, argIdx []int, hasBlock bool, method string) {
 	}
 }
 
+func c12KeptContexts(b *core.B) {
+	type kept struct {
+		name     string
+		hasBlock func() bool
+		block    func() (string, error)
+	}
+	for variant := 0; variant < 3; variant++ {
+		for _, tmpl := range []string{
+			"<%= keep() %>|<%= blk() { %>BLOCK<% } %>|<%= keep() %>|<%= blk() { %>SECOND<% } %>",
+			"<%= for (i) in [1, 2, 3] { %><%= keep() %><%= blk() { %>B<%= i %><% } %><% } %>",
+			"<%= blk() { %>FIRST<% } %><%= keep() %><%= blk() { %>X<%= keep() %>Y<% } %>",
+		} {
+			if !b.Begin(fmt.Sprintf("kept helper contexts (context parameter variant %d): %s", variant, tmpl)) {
+				continue
+			}
+			b.NonTrivialStr("kept", fmt.Sprint(variant), tmpl)
+			var all []kept
+			ctx := plush.NewContext()
+			switch variant {
+			case 0:
+				ctx.Set("keep", func(h plush.HelperContext) string {
+					all = append(all, kept{"plush.HelperContext", h.HasBlock, h.Block})
+					return "k"
+				})
+			case 1:
+				ctx.Set("keep", func(h hctx.HelperContext) string {
+					all = append(all, kept{"hctx.HelperContext", h.HasBlock, h.Block})
+					return "k"
+				})
+			default:
+				ctx.Set("keep", func(h *plush.HelperContext) string {
+					all = append(all, kept{"*plush.HelperContext", h.HasBlock, h.Block})
+					return "k"
+				})
+			}
+			ctx.Set("blk", func(h hctx.HelperContext) (template.HTML, error) {
+				s, err := h.Block()
+				return template.HTML(s), err
+			})
+			res := render(b, tmpl, ctx)
+			if res.Pan != nil {
+				continue
+			}
+			if res.Err != nil {
+				b.Violate("kept-context|render-failed", res.Err.Error())
+				continue
+			}
+			pan := core.Guard(func() {
+				for i, k := range all {
+					if k.hasBlock() {
+						s, err := k.block()
+						b.Violate("kept-context-gained-a-block|"+k.name, fmt.Sprintf("context %d was given to a call without a block; after the render it reports HasBlock() == true and renders %q (err %v)", i, s, err))
+						return
+					}
+					if _, err := k.block(); err == nil {
+						b.Violate("kept-context-gained-a-block|"+k.name, fmt.Sprintf("context %d: Block() succeeds although the call had no block", i))
+						return
+					}
+				}
+			})
+			if pan != nil {
+				b.Violate("kept-context|"+pan.Sig(), pan.Value)
+			}
+			b.Count("kept-contexts-inspected")
+		}
+	}
+}
+
 func c12Class(s c12Sig, args []c12Arg) string {
 	f := []string{}
 	if s.variadic != nil {
@@ -570,6 +639,11 @@ func c12Run(b *core.B) {
 				c12Call(b, c12Methods[mn], sh, blk == 1, mn)
 			}
 		}
+	}
+	// a helper may keep the context it was given: a context handed to a call
+	// without a block must not start carrying the block of a later call
+	if b.Batch == 0 {
+		c12KeptContexts(b)
 	}
 	// random: 3 fixed parameters and 4-argument calls
 	r := b.Rng(2)
